@@ -58,6 +58,10 @@ def validate(case):
         raise C.CaseInvalid("gran")
 
 
+OSERROR_NAMES = set(c.__name__ for c in (OSError, TimeoutError, ConnectionError, BrokenPipeError, ConnectionResetError, ConnectionAbortedError,
+                                          ConnectionRefusedError, InterruptedError, BlockingIOError))
+
+
 def to_scenario(case):
     n = case.get("reqs", 1)
     stream = "".join("GET /c0/r%d HTTP/1.1\r\nHost: h\r\nX-Conn: 0\r\n\r\n" % i for i in range(n))
@@ -101,10 +105,10 @@ def run_case_full(case, source=None, record=False):
     for name, d in r.died:
         fail("thread-died/" + d[0], "%s: %s" % (name, d[1]))
     for lvl, msg, et in r.logs:
-        if case.get("send_fault") is not None and msg == "Socket error":
-            continue   # the injected socket failure is logged, as log_socket_errors asks
+        if case.get("send_fault") is not None and et in OSERROR_NAMES:
+            continue   # the injected socket failure is logged, as log_socket_errors asks (whatever the wording of the message)
         if lvl >= 40 and et is not None:
-            if case.get("send_fault") is not None and et == "AttributeError" and msg == "Unexpected exception when flushing":
+            if case.get("send_fault") is not None and et == "AttributeError":
                 fail("exception-logged/AttributeError/flush-on-closed-channel-after-send-error", "after a send() error the producer flushed on the channel the main thread had just closed (socket is None)")
                 break
             fail("exception-logged/%s" % et, "the server logged %r (%s) although the application never fails in this scenario" % (msg, et))
